@@ -111,11 +111,33 @@ func (r *lockRig) raiseDuring(k int, req ref.Request) {
 	r.during, r.duringAt = &q, k
 }
 
+// mkInterrupt builds the emulator-side request. The data bytes are carved out of a larger array the host owns (a
+// table of vectors, a queue of requests): what follows them belongs to somebody else and must not be written.
 func mkInterrupt(req *ref.Request) *z80.Interrupt {
 	if req.NMI {
 		return z80.NMIInterrupt()
 	}
-	return &z80.Interrupt{Type: z80.IMType, Data: append([]uint8(nil), req.Data...)}
+	tbl := make([]uint8, len(req.Data)+8)
+	copy(tbl, req.Data)
+	for i := len(req.Data); i < len(tbl); i++ {
+		tbl[i] = canary
+	}
+	return &z80.Interrupt{Type: z80.IMType, Data: tbl[:len(req.Data)]}
+}
+
+const canary = 0xA5
+
+// canaryIntact reports whether the bytes behind a request's data (see mkInterrupt) are untouched.
+func canaryIntact(it *z80.Interrupt) bool {
+	if it == nil || it.Type != z80.IMType || cap(it.Data) < len(it.Data)+8 {
+		return true
+	}
+	for _, b := range it.Data[len(it.Data) : len(it.Data)+8] {
+		if b != canary {
+			return false
+		}
+	}
+	return true
 }
 
 // raise sets the same pending request on both sides.
@@ -123,11 +145,7 @@ func (r *lockRig) raise(req ref.Request) {
 	q := req
 	q.Data = append([]uint8(nil), req.Data...)
 	r.mReq = &q
-	if req.NMI {
-		r.cpu.Interrupt = z80.NMIInterrupt()
-	} else {
-		r.cpu.Interrupt = &z80.Interrupt{Type: z80.IMType, Data: append([]uint8(nil), req.Data...)}
-	}
+	r.cpu.Interrupt = mkInterrupt(&q)
 }
 
 type lockStep struct {
@@ -150,7 +168,11 @@ var im0Domain = map[string]bool{"RST": true, "CALL": true, "NOP": true, "INC r":
 	"LD r,r'": true, "ALU A,r": true, "ALU A,n": true,
 	// complete register-only instructions, also prefixed ones (ED 4A, DD 09, CB 00, FD 23, DD 21 nn)
 	"ADD HL,rp": true, "ADC HL,rp": true, "SBC HL,rp": true, "INC rp": true, "DEC rp": true, "NEG": true, "ROT r": true, "BIT r": true,
-	"EX DE,HL": true, "EXX": true, "EX AF,AF'": true, "CPL": true, "SCF": true, "CCF": true, "DAA": true, "RxA": true, "LD rp,nn": true}
+	"EX DE,HL": true, "EXX": true, "EX AF,AF'": true, "CPL": true, "SCF": true, "CCF": true, "DAA": true, "RxA": true, "LD rp,nn": true,
+	// instructions with a memory operand: under the known finding the two exact models say what they read and write
+	"ALU A,(m)": true, "LD r,(m)": true, "LD (m),r": true, "LD (m),n": true, "ROT (m)": true, "ROT (xy+d)": true, "BIT (m)": true, "BIT (xy+d)": true,
+	"LD A,(BC)": true, "LD A,(DE)": true, "LD (BC),A": true, "LD (DE),A": true, "LD A,(nn)": true, "LD (nn),A": true, "LD HL,(nn)": true, "LD (nn),HL": true,
+	"INC r(m)": true, "DEC r(m)": true, "PUSH": true, "POP": true}
 
 type lockCand struct {
 	variant string
@@ -237,6 +259,7 @@ func (r *lockRig) step() lockStep {
 		r.cpu.States = z80.States{}
 		target = &r.alt
 	}
+	entryReq := r.cpu.Interrupt
 	dur, fired := r.during, false
 	r.during = nil
 	if dur != nil && !r.useDumb {
@@ -321,6 +344,9 @@ func (r *lockRig) step() lockStep {
 		if r.retn.n != wantN || r.reti.n != wantI {
 			ds = append(ds, eng.Disc{Kind: eng.KIntr,
 				Msg: fmt.Sprintf("RETN/RETI handler calls %d/%d want %d/%d", r.retn.n, r.reti.n, wantN, wantI)})
+		}
+		if !canaryIntact(entryReq) {
+			ds = append(ds, eng.Disc{Kind: eng.KIntr, Msg: "the Step wrote into the host's array behind the data bytes of the request (Interrupt.Data had spare capacity)"})
 		}
 		pendingAfter, wantReq := r.mReq != nil && !consumed, r.mReq
 		if fired {
